@@ -349,7 +349,9 @@ def main(argv):
                 extract.rebaseline(prop)
             print("rebaselined", prop)
             return 0
-        return run_check(prop, a.tier, seed, a.replay)
+        # C01 and C02 share one Lean model: they take the same lock
+        with lean.PropLock("C01" if prop == "C02" else prop):
+            return run_check(prop, a.tier, seed, a.replay)
     except InfraError as e:
         print("INFRA-ERROR property=%s: %s" % (prop, e), file=sys.stderr)
         return 2
